@@ -339,6 +339,8 @@ SfVerdict(ln) ==
   \* a name with CR / LF is either refused (ValueError, Headers: "Header values must not contain newline characters")
   \* or sent safely (judged below)
   ELSE IF ln.exc = "ValueError" /\ NameP(ln) /\ HasNewline(Name(ln)) THEN (IF ln.open_end # 0 THEN "FileClosed/OnRaise" ELSE "ok")
+  \* the same for the X-Sendfile header of a path that contains CR / LF
+  ELSE IF ln.exc = "ValueError" /\ XsfActive(ln) /\ HasNewline(ln.path) THEN (IF ln.open_end # 0 THEN "FileClosed/OnRaise" ELSE "ok")
   \* "use_x_sendfile: ... Requires passing a file path.": refusing a file object is as documented as ignoring the flag
   ELSE IF ln.exc \in {"TypeError", "ValueError"} /\ ln.xsf /\ ~IsPathKind(ln) THEN "ok"
   ELSE IF ln.exc # "" /\ ln.status # 416 THEN "Raised"
